@@ -63,12 +63,22 @@ def comparisons(conds):
     """[(figure term, limit, strict)] of the true `figure > limit` decisions on a path"""
     out = []
     for atom, d in conds:
-        for t in flatten_and(atom):
-            if isinstance(t, Term) and t.op in ("gt", "lt") and d:
-                fig, lim = (t.args[0], t.args[1]) if t.op == "gt" else (t.args[1], t.args[0])
-                if isinstance(fig, int):
-                    continue   # a gate such as `limit < usize::MAX`, not a figure
-                out.append((fig, lim))
+        for t in (flatten_and(atom) if d else [atom]):
+            dd = d
+            while isinstance(t, Term) and t.op == "not" and len(t.args) == 1:
+                t, dd = t.args[0], not dd
+            if not (isinstance(t, Term) and len(t.args) == 2):
+                continue
+            # the decision as a strict `figure > limit`: a > b, b < a, not (a <= b), not (b >= a)
+            if (t.op, dd) in (("gt", True), ("le", False)):
+                fig, lim = t.args[0], t.args[1]
+            elif (t.op, dd) in (("lt", True), ("ge", False)):
+                fig, lim = t.args[1], t.args[0]
+            else:
+                continue
+            if isinstance(fig, int):
+                continue   # a gate such as `limit < usize::MAX`, not a figure
+            out.append((fig, lim))
     return out
 
 
